@@ -314,7 +314,8 @@ class SheetGen:
     def _goto_row(self):
         rng = self.rng
         edges = self._edges()
-        tg = [x for x in self.nodes if x["type"] != "no_op"]
+        # (a go_to into a row merged into an earlier row's node would enter that node at its first action: F-C02-d)
+        tg = [x for x in self.nodes if x["type"] != "no_op" and not x.get("merged")]
         if not tg:
             return self._node_row(rng.choice(ACTION_TYPES))
         if len(edges) > 1 and rng.random() < 0.5:
@@ -329,21 +330,21 @@ class SheetGen:
         row = {"row_id": "", "type": self.rng.choice(["hard_exit", "loose_exit"])}
         self._emit(row, self._edges())
 
-    def _noop_row(self):
-        """a no_op inside NoopStable by construction (most of the time): in-edges from non-no_op
-        rows, then immediately the rows that leave it — conditional ones first — while its
-        sources receive no other edge."""
+    def _noop_row(self, constrained=False):
+        """a no_op inside NoopStable by construction (most of the time; always when `constrained`):
+        in-edges from non-no_op rows, then immediately the rows that leave it — conditional ones
+        first — while its sources receive no other edge."""
         rng = self.rng
         rid = self._id()
         info = {"id": rid, "type": "no_op", "tests": set(), "var": None, "timeout": 0}
-        if rng.random() < 0.2:
+        if not constrained and rng.random() < 0.2:
             # unconstrained variant (often outside NoopStable; exercised for C01 only)
             edges = self._edges()
             self._emit({"row_id": rid, "type": "no_op"}, edges)
             self.nodes.append(info)
             self._last_group = info
             return
-        cands = [x for x in self.nodes if x["type"] != "no_op"]
+        cands = [x for x in self.nodes if x["type"] != "no_op" and not x.get("closed")]
         if not cands:
             return self._node_row(rng.choice(ACTION_TYPES))
         srcs = []
